@@ -762,14 +762,17 @@ func checkDecodeCashAddress(input string) (result []byte, prefix string, t Addre
 	if len(data) != 21 && len(data) != 33 {
 		return data, prefix, AddrTypePayToPubKeyHash, errors.New("incorrect data length")
 	}
-	switch data[0] {
-	case 0x00:
+	switch {
+	case data[0] == 0x00 && len(data) == 21:
 		t = AddrTypePayToPubKeyHash
-	case 0x08:
+	case data[0] == 0x08 && len(data) == 21:
 		t = AddrTypePayToScriptHash
-	case 0x0b:
+	case data[0] == 0x0b && len(data) == 33:
 		// type bits 1 (P2SH) with size bits 3 (256 bit hash)
 		t = AddrTypePayToScriptHash32
+	default:
+		// unknown type bits, or size bits that do not match the hash length
+		return data, prefix, AddrTypePayToPubKeyHash, ErrUnknownAddressType
 	}
 	return data[1:], prefix, t, nil
 }
